@@ -10,17 +10,11 @@ pub fn find_header_end(buf: &[u8]) -> (r: Option<usize>)
 { unimplemented!() }
 #[verifier::external_body]
 pub fn vx_slice_to_vec(s: &[u8]) -> (r: Vec<u8>) ensures r@ == s@ { s.to_vec() }
-// the pure request parser / rewriter (string code: not under contract, see DESIGN.md C17): opaque total functions of their inputs
-pub struct ParsedRequest { pub method: String, pub version: String, pub host: String, pub port: u16, pub path: String, pub is_connect: bool, pub headers: Vec<String>, pub body: Vec<u8> }
-pub uninterp spec fn parse_spec(header: Seq<char>, body: Seq<u8>) -> Option<ParsedRequest>;
-#[verifier::external_body]
-pub fn parse_http_request(header: &String, body: Vec<u8>) -> (r: Result<ParsedRequest>)
-    ensures r is Ok ==> r->Ok_0.body@ == body@   // the bytes that arrived with the header are kept as the early body
-{ unimplemented!() }
-pub uninterp spec fn forward_spec(req: ParsedRequest) -> Seq<u8>;
-#[verifier::external_body]
-pub fn build_forward_request(req: &ParsedRequest) -> (r: Result<Vec<u8>>) ensures r is Ok ==> r->Ok_0@ == forward_spec(*req) { unimplemented!() }
-pub enum HxEv { Tunnel { host: Seq<char>, port: u16 }, Data { id: u32, bytes: Seq<u8> } }
+// String::from_utf8: the bytes themselves when they are valid UTF-8
+pub struct FromUtf8Error;
+impl VStr { #[verifier::external_body] pub fn from_utf8(v: Vec<u8>) -> (r: std::result::Result<VStr, FromUtf8Error>) ensures r is Ok ==> r->Ok_0@ == v@ && str_wf(r->Ok_0@) { unimplemented!() } }
+// the request parser / rewriter are the REAL functions (unit http_text, string model of shims/str_env.rs)
+pub enum HxEv { Tunnel { host: Seq<u8>, port: u16 }, Data { id: u32, bytes: Seq<u8> } }
 pub struct ProxyStream { pub id: u32 }
 impl ProxyStream { pub fn id(&self) -> (r: u32) ensures r == self.id { self.id } }
 pub struct ProxySession { pub _p: () }
@@ -33,7 +27,7 @@ impl ProxySession {
 pub struct Client { pub _p: () }
 impl Client {
     #[verifier::external_body]
-    pub fn create_proxy_stream(&self, destination: (String, u16), fx: &mut Ghost<Seq<HxEv>>) -> (r: Result<(Arc<ProxyStream>, Arc<ProxySession>)>)
+    pub fn create_proxy_stream(&self, destination: (VStr, u16), fx: &mut Ghost<Seq<HxEv>>) -> (r: Result<(Arc<ProxyStream>, Arc<ProxySession>)>)
         ensures r is Ok ==> final(fx)@ == old(fx)@.push(HxEv::Tunnel { host: destination.0@, port: destination.1 }), r is Err ==> final(fx)@ == old(fx)@
     { unimplemented!() }
 }
@@ -45,13 +39,12 @@ pub fn send_connect_success(stream: &mut TcpStream) -> (r: Result<()>)
 { unimplemented!() }
 pub uninterp spec fn http_200() -> Seq<u8>;
 #[verifier::external_body]
-pub fn send_http_error(stream: &mut TcpStream, code: u16, message: &str) -> (r: Result<()>)
+pub fn send_http_error(stream: &mut TcpStream, code: u16, message: &VStr) -> (r: Result<()>)
     requires code >= 400
     ensures final(stream).avail == old(stream).avail, final(stream).written.len() >= old(stream).written.len(),
         // an error reply is never the 200 line
         !(final(stream).written.len() >= old(stream).written.len() + http_200().len() && final(stream).written.subrange(old(stream).written.len() as int, (old(stream).written.len() + http_200().len()) as int) == http_200())
 { unimplemented!() }
-impl Clone for ParsedRequest { #[verifier::external_body] fn clone(&self) -> (r: Self) ensures r == *self { unimplemented!() } }
 pub broadcast axiom fn axiom_200_nonempty() ensures #[trigger] http_200().len() > 0;
 #[verifier::external_body]
-pub fn vx_clone_pair(p: &(String, u16)) -> (r: (String, u16)) ensures r.0@ == p.0@, r.1 == p.1 { (p.0.clone(), p.1) }
+pub fn vx_clone_pair(p: &(VStr, u16)) -> (r: (VStr, u16)) ensures r.0@ == p.0@, r.1 == p.1 { unimplemented!() }
